@@ -603,7 +603,8 @@ def sorted_nodes_rule(ck, rule):
     mol = ck.index.mod('vermouth/molecule.py')
     sn = mol.func('Molecule.sorted_nodes')
     ck.analysed(mol, sn)
-    body = [s_ for s_ in sn.body if not (isinstance(s_, ast.Expr) and isinstance(s_.value, ast.Constant))]
+    from .. import interp as _ip
+    body = [s_ for s_ in sn.body if not (isinstance(s_, ast.Expr) and isinstance(s_.value, ast.Constant)) and not _ip._is_log_stmt(s_)]
     ok = len(body) == 1 and isinstance(body[0], ast.Expr) and isinstance(body[0].value, ast.YieldFrom) and isinstance(body[0].value.value, ast.Call) \
         and call_name(body[0].value.value) == 'sorted' and u(body[0].value.value.args[0]) == 'self.nodes'
     if ok:
